@@ -65,9 +65,13 @@ extern MPT_STRUCT(buffer) *mpt_array_reserve(MPT_STRUCT(array) *arr, size_t len,
 				if (used > len) {
 					used = len;
 				}
-				if (used && !mpt_buffer_set(reserve, traits, 0, buf + 1, used)) {
-					reserve->_vptr->unref(reserve);
-					return 0;
+				if (used) {
+					/* raw copy reports zero, typed copy number of copied elements */
+					long set = mpt_buffer_set(reserve, traits, 0, buf + 1, used);
+					if (set < 0 || (traits && (size_t) set < (used / traits->size))) {
+						reserve->_vptr->unref(reserve);
+						return 0;
+					}
 				}
 			}
 			buf->_vptr->unref(buf);
